@@ -28,6 +28,7 @@ REQUIRED_COUNTERS = {
     'cache_evicted_answer_asserted': 30,    # size 1, certainly evicted
     'lru_invariant_checks': 10000,
     'snapshot_crosscheck_sequences': 16,
+    'multi_workflow_webhook_cells': 80,
 }
 SHARD_TIMEOUT = {'quick': 900, 'thorough': 3600}
 
@@ -518,6 +519,7 @@ class Harness:
         self.partial = functools.partial
         self.default_factory = cache.BUILD_STATUS_CACHE.default_factory
         self.world = {}          # (commit sha, key) -> abstract state
+        self.multi_runs = {}     # commit sha -> runs of several workflows
         self.monitor = LruMonitor.install()
         if host == 'github':
             self.client = github.Client(login='robot', password='robot-pw',
@@ -619,6 +621,9 @@ class Harness:
                                      % (OWNER, SLUG, sha)}}}
 
     def github_runs(self, sha):
+        if sha in self.multi_runs:
+            return [dict(r, repository=self.github_repo_json())
+                    for r in self.multi_runs[sha]]
         s = self.world.get((sha, 'github_actions'))
         if s is None:
             return []
@@ -656,6 +661,17 @@ class Harness:
         # /repos/<owner>/<slug>/actions/runs?head_sha=<sha>
         if rec.method == 'GET' and parts[4:] == ['actions', 'runs']:
             runs = self.github_runs(rec.query['head_sha'])
+            # the list filters of the real API ("List workflow runs for a
+            # repository"): a narrower question gets a narrower answer
+            for param, field in (('check_suite_id', 'check_suite_id'),
+                                 ('branch', 'head_branch'),
+                                 ('event', 'event')):
+                if param in rec.query:
+                    runs = [r for r in runs
+                            if str(r[field]) == rec.query[param]]
+            if 'status' in rec.query:
+                runs = [r for r in runs if rec.query['status'] in
+                        (r['status'], r['conclusion'])]
             return self.Reply(200, {'total_count': len(runs),
                                     'workflow_runs': runs})
         raise AssertionError('unexpected request %s %s' % (rec.method,
@@ -733,6 +749,72 @@ class Harness:
         sha, key = COMMITS[c], self.keys[k]
         self.set_world(sha, key, s)
         return self.repo.get_build_status(sha, key)
+
+
+MULTI_STATES = {'S': ('completed', 'success'), 'F': ('completed', 'failure'),
+                'P': ('in_progress', None), 'X': ('completed', 'cancelled')}
+
+
+def run_multi_workflow(acc):
+    """A commit built by TWO workflows (one check suite each, as GitHub
+    Actions does): check_suite webhooks of either suite, in either order,
+    then a poll.  Nothing changes on the host meanwhile, so whatever Bert-E
+    answers must be what the host reports for the COMMIT: SUCCESSFUL iff both
+    workflows succeeded."""
+    h = Harness('github')
+    sha = COMMITS[0]
+    for s1 in 'SFPX':
+        for s2 in 'SFPX':
+            for deliveries in ((1,), (2,), (1, 2), (2, 1), ()):
+                h.reset(1000)
+                h.multi_runs[sha] = [
+                    {'id': 10 + w, 'head_sha': sha, 'head_branch': 'w/1.0/x',
+                     'status': MULTI_STATES[s][0],
+                     'conclusion': MULTI_STATES[s][1], 'event': 'push',
+                     'workflow_id': w, 'check_suite_id': 20 + w,
+                     'html_url': 'https://github.test/runs/%d' % (10 + w)}
+                    for w, s in ((1, s1), (2, s2))]
+                codes = []
+                for w in deliveries:
+                    run = h.multi_runs[sha][w - 1]
+                    body = {'action': 'completed' if run['conclusion']
+                            else 'requested',
+                            'check_suite': {'id': run['check_suite_id'],
+                                            'head_sha': sha,
+                                            'head_branch': run['head_branch'],
+                                            'status': run['status'],
+                                            'conclusion': run['conclusion']},
+                            'repository': h.github_repo_json()}
+                    codes.append(h.http.post(
+                        '/github', data=json.dumps(body),
+                        headers={'X-Github-Event': 'check_suite',
+                                 'Authorization': h.auth,
+                                 'Content-Type': 'application/json'}
+                    ).status_code)
+                    h.bert_e.task_queue.queue.clear()
+                got = h.repo.get_build_status(sha, 'github_actions')
+                h.multi_runs.clear()
+                acc.evals += 1
+                acc.count('multi_workflow_webhook_cells')
+                acc.nontrivial('multi-workflow|%s%s|%s' % (
+                    s1, s2, ''.join(map(str, deliveries)) or 'poll-only'))
+                green = s1 == 'S' and s2 == 'S'
+                wit = {'part': 'multi-workflow', 'states': [s1, s2],
+                       'deliveries': list(deliveries)}
+                if any(c >= 400 for c in codes):
+                    acc.count('multi_workflow_webhook_refused')
+                if (got == 'SUCCESSFUL') != green:
+                    acc.violation(
+                        'green-for-a-commit-with-a-non-green-workflow'
+                        if not green else
+                        'not-green-although-every-workflow-succeeded',
+                        'workflows 1/2 of the commit are %s/%s on the host; '
+                        'check_suite webhooks delivered for suites %s; '
+                        'get_build_status answers %s' % (
+                            STATE_NAMES.get(s1, s1), STATE_NAMES.get(s2, s2),
+                            list(deliveries), got), wit)
+                elif len(acc.samples) < 8 and deliveries and s1 != s2:
+                    acc.sample(dict(wit, answer=got))
 
 
 def ops_json(ops):
@@ -996,6 +1078,8 @@ def run_shard(spec, acc):
         run_aggregation(spec, acc)
     if spec.get('only') != 'aggregation':
         run_cache(spec, acc)
+        if spec['shard'] == 1:
+            run_multi_workflow(acc)
 
 
 def finalize(acc, tier, seed):
@@ -1005,7 +1089,9 @@ def finalize(acc, tier, seed):
 def replay(w, acc):
     import logging
     logging.disable(logging.CRITICAL)
-    if w.get('part') == 'aggregation':
+    if w.get('part') == 'multi-workflow':
+        run_multi_workflow(acc)
+    elif w.get('part') == 'aggregation':
         shapes = [tuple(s) for s in w['runs']]
         env = AggEnv(shapes)
         agg_case(env, tuple(range(len(shapes))), acc)
